@@ -164,5 +164,5 @@ class Sequential(Module):
         for module in self.submodules():
             out = module(inp)
             inp = out
-        return out
+        return inp
         
